@@ -286,6 +286,17 @@ func c16Run(c *core.Ctx, idx int) {
 			if AutoMutex || idx%7 == 3 {
 				recv.SetMutex() // (the process-wide lock watcher turns a re-acquired lock into a reported panic)
 			}
+			switch idx % 11 {
+			case 2:
+				recv.SetMarshaler(nil) // every spelling of "no closure of my own" leaves the built-in decoder in charge
+			case 5:
+				recv.SetMarshaler(stackage.Marshaler(nil))
+			case 7:
+				recv.SetMarshaler()
+			case 9:
+				recv.SetMarshaler(func(...any) error { return nil })
+				recv.SetMarshaler(nil)
+			}
 		}
 		var err error
 		call := func() {
